@@ -22,7 +22,7 @@ M.contract('xtuml.consistency_check.check_link_integrity', [('m', MM), ('link', 
            ensures={'counts-ends-outside-multiplicity':
                     'result == viol_prefix(link, link.from_metaclass.storage, len(link.from_metaclass.storage))'},
            modifies=[],
-           loops={0: Loop(inv={'count-so-far': 'res == viol_prefix(link, _seq, _i)',
+           loops={0: Loop(inv={'count-so-far': '_returned == viol_prefix(link, _seq, _i)',
                                'iterates-pool': '_seq == link.from_metaclass.storage'})})
 
 # ---- all associations, optionally restricted to one association number
@@ -51,7 +51,7 @@ M.contract('xtuml.consistency_check.check_association_integrity', [('m', MM), ('
            ensures={'sum-over-selected-associations-both-directions':
                     'result == assoc_sum(m, norm_rel(rel_id), len(m.associations))'},
            modifies=[],
-           loops={0: Loop(inv={'sum-so-far': 'res == assoc_sum(m, norm_rel(old(rel_id)), _i)',
+           loops={0: Loop(inv={'sum-so-far': '_returned == assoc_sum(m, norm_rel(old(rel_id)), _i)',
                                'rel-normalised': 'rel_id == norm_rel(old(rel_id))',
                                'iterates-associations': '_seq == m.associations'})})
 
